@@ -265,6 +265,12 @@ def parse_args(args: List[str]) -> Tuple[ArgumentParser, Namespace]:
 def main():
     parser, args = parse_args(sys.argv[1:])
 
+    # BIP44 address index is not hardened -> generated indexes stay below 2**31
+    if max(args.interval) > 2 ** 31:
+        parser.error(
+            "Address index has to be lower than {}".format(2 ** 31)
+        )
+
     if args.command == "new":
         wallet = PaperWallet.new_wallet(
             mnemonic_length=args.mnemonic_len,
